@@ -7,18 +7,20 @@ import (
 	"fmt"
 	"sort"
 
+	"github.com/nspcc-dev/neo-go/pkg/config"
 	"github.com/nspcc-dev/neo-go/pkg/core"
+	"github.com/nspcc-dev/neo-go/pkg/core/block"
 	"github.com/nspcc-dev/neo-go/pkg/core/native/noderoles"
 	"github.com/nspcc-dev/neo-go/pkg/core/state"
 	"github.com/nspcc-dev/neo-go/pkg/core/storage"
 	"github.com/nspcc-dev/neo-go/pkg/core/transaction"
+	"github.com/nspcc-dev/neo-go/pkg/crypto/keys"
 	"github.com/nspcc-dev/neo-go/pkg/io"
 	"github.com/nspcc-dev/neo-go/pkg/smartcontract"
 	"github.com/nspcc-dev/neo-go/pkg/smartcontract/callflag"
 	"github.com/nspcc-dev/neo-go/pkg/smartcontract/trigger"
-	"github.com/nspcc-dev/neo-go/pkg/vm/emit"
-	"github.com/nspcc-dev/neo-go/pkg/crypto/keys"
 	"github.com/nspcc-dev/neo-go/pkg/util"
+	"github.com/nspcc-dev/neo-go/pkg/vm/emit"
 )
 
 // Digest is a component-wise summary of everything the protocol defines at the chain's CURRENT height.
@@ -232,3 +234,77 @@ func RawDump(st storage.Store) map[string]string {
 }
 
 var _ = util.Uint160{}
+
+// Explain describes how node bc (at height h) differs from a fresh reference node that is fed the same blocks 1..h
+// (blockAt(i) returns block i): differing storage items and differing execution results of block h. It is information
+// for the reader of a replay, never a verdict.
+func (n *Net) Explain(bc *core.Blockchain, hook func(*config.Blockchain), h uint32, blockAt func(uint32) *block.Block) []string {
+	var out []string
+	ref, err := n.NewChain(nil, hook)
+	if err != nil {
+		return []string{"explain: " + err.Error()}
+	}
+	Start(ref)
+	defer ref.Close()
+	for i := uint32(1); i <= h; i++ {
+		b := blockAt(i)
+		if b == nil {
+			return append(out, fmt.Sprintf("explain: no block %d", i))
+		}
+		raw, err := EncodeBlock(b)
+		if err != nil {
+			return append(out, "explain: "+err.Error())
+		}
+		c, err := DecodeBlock(raw, ref.GetConfig().StateRootInHeader)
+		if err != nil {
+			return append(out, "explain: "+err.Error())
+		}
+		if err := ref.AddBlock(c); err != nil {
+			return append(out, fmt.Sprintf("explain: fresh reference refuses block %d: %v", i, err))
+		}
+	}
+	a, b := map[string]string{}, map[string]string{}
+	for _, it := range StorageDump(ref) {
+		a[it[0]+"/"+it[1]] = it[2]
+	}
+	for _, it := range StorageDump(bc) {
+		b[it[0]+"/"+it[1]] = it[2]
+	}
+	var keys []string
+	for k, v := range a {
+		if w, ok := b[k]; !ok {
+			keys = append(keys, fmt.Sprintf("storage %s: reference %s | node (absent)", k, v))
+		} else if w != v {
+			keys = append(keys, fmt.Sprintf("storage %s: reference %s | node %s", k, v, w))
+		}
+	}
+	for k, w := range b {
+		if _, ok := a[k]; !ok {
+			keys = append(keys, fmt.Sprintf("storage %s: reference (absent) | node %s", k, w))
+		}
+	}
+	sort.Strings(keys)
+	if len(keys) > 12 {
+		keys = append(keys[:12], fmt.Sprintf("... %d more", len(keys)-12))
+	}
+	out = append(out, keys...)
+	if blk := blockAt(h); blk != nil {
+		for i, tx := range blk.Transactions {
+			x, e1 := ref.GetAppExecResults(tx.Hash(), trigger.Application)
+			y, e2 := bc.GetAppExecResults(tx.Hash(), trigger.Application)
+			if e1 != nil || e2 != nil || len(x) != 1 || len(y) != 1 {
+				out = append(out, fmt.Sprintf("tx %d: results reference %d/%v node %d/%v", i, len(x), e1, len(y), e2))
+				continue
+			}
+			if aerKey(&x[0]) != aerKey(&y[0]) {
+				attrs := ""
+				for _, at := range tx.Attributes {
+					attrs += at.Type.String() + " "
+				}
+				out = append(out, fmt.Sprintf("tx %d attrs[%s] script %x: reference %s gas %d %q | node %s gas %d %q", i, attrs, tx.Script[:min(len(tx.Script), 60)],
+					x[0].VMState, x[0].GasConsumed, x[0].FaultException, y[0].VMState, y[0].GasConsumed, y[0].FaultException))
+			}
+		}
+	}
+	return out
+}
